@@ -239,6 +239,9 @@ impl BigNumber {
     }
 
     pub fn mod_exp(&self, a: &BigNumber, b: &BigNumber) -> ClResult<BigNumber> {
+        if b.openssl_bn.num_bits() == 0 {
+            return Err(err_msg!("Invalid modulus"));
+        }
         let mut bn = BigNumber::new()?;
 
         if a.openssl_bn.is_negative() {
